@@ -339,11 +339,12 @@ def p5(ctx: Ctx):
         for fn in [x for x in ast.walk(m.tree) if isinstance(x, ast.FunctionDef)]:
             decos = [unparse(d) for d in fn.decorator_list]
             if any(re.search(r"\b(lru_cache|cache|cached_property)\b", d) for d in decos):
-                builds = any(isinstance(c, ast.Call) and isinstance(c.func, ast.Name) and c.func.id[:1].isupper() for c in ast.walk(fn))
+                builds = any(isinstance(c, ast.Call) and isinstance(c.func, ast.Name) and c.func.id[:1].isupper() for c in ast.walk(fn)) or any(isinstance(c, ast.Call) and any(isinstance(a_, ast.Name) and a_.id == "cls" for a_ in c.args) for c in ast.walk(fn))
+                reads = any(isinstance(c, ast.Call) and (call_name(c) in ("open", "read", "read_text", "read_bytes", "load", "safe_load")) for c in ast.walk(fn))
                 ctx.ob(
                     f"{m.rel}:{fn.name}:memoised",
-                    not builds,
-                    "" if not builds else f"`{fn.name}` is memoised ({', '.join(decos)}) and returns an object it builds: every later conversion in the process receives the same object, so whatever one conversion adds to it leaks into the next",
+                    not builds and not reads,
+                    "" if not builds and not reads else f"`{fn.name}` is memoised ({', '.join(decos)}) and " + ("reads a file: a later call in the same process gets what the file held the first time, whatever it holds now" if reads else "returns an object it builds: every later conversion in the process receives the same object, so whatever one conversion adds to it leaks into the next"),
                     file=m.rel,
                     line=fn.lineno,
                 )
